@@ -77,9 +77,10 @@ def handle (cmd : String) (args impl : List String) : Option (String × String) 
     let conc := mode == 1
     let n ← nat? nn
     let (qes, r0) ← parseReqs n rest
-    -- mode 2: the schedule (which request is advanced to its next park point, step by step); the
+    -- mode 2: the schedule (i < n: request i to its next park point; n+i: request i to its end;
+    -- 2n: every started request to its end); the
     -- model's answer does not depend on it: that is what `requests_isolated` states
-    let r ← if mode == 2 then (listOf nat? r0).bind (fun x => if x.1.all (· < n) then some x.2 else none) else some r0
+    let r ← if mode == 2 then (listOf nat? r0).bind (fun x => if x.1.all (· ≤ 2 * n) then some x.2 else none) else some r0
     if r ≠ [] then none
     let qs := qes.map (·.1)
     let ended := qes.map (·.2)
